@@ -50,7 +50,7 @@ func c18Run(entry, src string) *c18Out {
 	case entryLex:
 		r.toks, r.err = safeLex(src)
 	default:
-		r.o = entryByName[entry].Guarded(src)
+		r.o = entryByName[entry].Unwatched(src)
 	}
 	return r
 }
@@ -345,6 +345,30 @@ func runC18(ctx *harness.Ctx) {
 			inputs = append(inputs, src)
 		}
 		inputs = append(inputs, errorSiteVariants()...) // every special error site, at several positions, first met concurrently
+		// feature-rich fixed inputs, each twice and through query / statement / list entry points, so that every lazily initialised
+		// piece of state has at least two goroutines reaching it first (what the drawn sentences happen to contain varies by seed)
+		rich := []string{
+			"SELECT arr[OFFSET(1)], arr[SAFE_ORDINAL(2)], m[k], s.f.g, CAST(x AS ARRAY<STRUCT<a INT64, b STRING(MAX)>>), SAFE_CAST(y AS NUMERIC), DATE '2024-01-02', TIMESTAMP \"t\", JSON '{}', NUMERIC '1', INTERVAL 1 DAY, " +
+				"CASE WHEN a THEN b ELSE c END, EXTRACT(DAY FROM d), STRUCT(1 AS a), [1, 2], ARRAY(SELECT 1), EXISTS(SELECT 1), IF(a, b, c), a NOT BETWEEN 1 AND 2, a NOT IN UNNEST(b), a IS NOT TRUE, -a, ~b, a || b, f(x => 1), " +
+				"COUNT(DISTINCT x IGNORE NULLS), NEW p.M(1 AS f), NEW p.M {a: 1, b {c: 2}}, WITH(v AS 1, v + 1), REPLACE_FIELDS(m, 1 AS a.b), (a, b).x, @p, r'\\d', b\"\\x00\", 0x1F, 1.5e3, .5 " +
+				"FROM t1@{FORCE_INDEX=i} AS a TABLESAMPLE BERNOULLI (10 PERCENT) LEFT OUTER HASH JOIN t2 USING (k) CROSS JOIN UNNEST(arr) AS u WITH OFFSET AS o, f(TABLE t, MODEL m, 1) " +
+				"WHERE x LIKE 'a%' GROUP BY 1 HAVING TRUE ORDER BY 1 DESC NULLS LAST LIMIT 10 OFFSET @o",
+			"WITH c AS (SELECT 1 UNION ALL (SELECT 2 INTERSECT DISTINCT SELECT 3)) SELECT AS STRUCT * EXCEPT (a) REPLACE (1 AS b) FROM c |> WHERE TRUE |> SELECT x |> LIMIT 1",
+			"@{a=1} SELECT * FROM (SELECT 1) FOR UPDATE",
+			"CREATE TABLE IF NOT EXISTS s.t (a INT64 NOT NULL DEFAULT (1) OPTIONS (x = 1), b STRING(MAX) AS (CAST(a AS STRING)) STORED HIDDEN, c ARRAY<FLOAT32>(vector_length=>3), d TOKENLIST AS (TOKENIZE_FULLTEXT(b)) HIDDEN, " +
+				"e INT64 GENERATED BY DEFAULT AS IDENTITY (BIT_REVERSED_POSITIVE), CONSTRAINT fk FOREIGN KEY (a) REFERENCES u (a) ON DELETE CASCADE NOT ENFORCED, CHECK (a > 0), SYNONYM (syn)) PRIMARY KEY (a DESC), INTERLEAVE IN PARENT p ON DELETE NO ACTION, ROW DELETION POLICY (OLDER_THAN(ts, INTERVAL 1 DAY))",
+			"ALTER TABLE t ADD COLUMN IF NOT EXISTS c BYTES(10), ALTER COLUMN d SET OPTIONS (x = NULL)", "ALTER TABLE t ALTER COLUMN c ALTER IDENTITY SET SKIP RANGE 1, 2",
+			"CREATE UNIQUE NULL_FILTERED INDEX i ON t (a DESC, b) STORING (c), INTERLEAVE IN p", "CREATE SEARCH INDEX i ON t (a) PARTITION BY b ORDER BY c OPTIONS (x = 1)", "CREATE VECTOR INDEX i ON t (a) WHERE a IS NOT NULL OPTIONS (distance_type = 'COSINE')",
+			"CREATE CHANGE STREAM s FOR t1(a, b), t2(), t3 OPTIONS (retention_period = '1d')", "CREATE SEQUENCE IF NOT EXISTS s BIT_REVERSED_POSITIVE SKIP RANGE 1, 2 START COUNTER WITH 3", "ALTER SEQUENCE s SET OPTIONS (x = 1)",
+			"CREATE OR REPLACE VIEW v SQL SECURITY DEFINER AS SELECT 1", "CREATE MODEL m INPUT (a INT64) OUTPUT (b FLOAT64) REMOTE OPTIONS (endpoint = 'e')", "GRANT SELECT(a), INSERT, UPDATE(b), DELETE ON TABLE t TO ROLE r",
+			"CREATE PROPERTY GRAPH g NODE TABLES (n KEY (id) LABEL l PROPERTIES (a AS b) DEFAULT LABEL NO PROPERTIES) EDGE TABLES (e SOURCE KEY (s) REFERENCES n (id) DESTINATION KEY (d) REFERENCES n (id))",
+			"CREATE PROTO BUNDLE (a.B, c)", "ALTER PROTO BUNDLE INSERT (a.B) UPDATE (c) DELETE (d)", "CREATE LOCALITY GROUP g OPTIONS (x = 1)", "ALTER DATABASE d SET OPTIONS (x = 1)", "ANALYZE", "DROP TABLE IF EXISTS t", "RENAME TABLE a TO b, c TO d",
+			"INSERT OR UPDATE INTO t (a, b) VALUES (1, DEFAULT), (2, (SELECT 3)) THEN RETURN WITH ACTION AS act *", "UPDATE t AS x SET x.a = 1, b = DEFAULT WHERE TRUE THEN RETURN a", "DELETE FROM t WHERE a IN (SELECT 1) ASSERT_ROWS_MODIFIED 1",
+			"CALL p.q(1, TABLE t, a => 2)",
+		}
+		for _, r := range rich {
+			inputs = append(inputs, r, "SELECT 1", r)
+		}
 		inputs = append(inputs, ".5 + x", "a b", "(1))", "arr[OFFSET(1)]", "t.arr[ordinal(2)][i]", "'\\u00e9' || `a\\u0062`", "SELECT 1; \x00")
 		cs := &harness.Case{Leg: "cold-sweep", Input: encodeBatch(inputs), Aux: map[string]string{"goroutines": "16", "rotate": "3", "cold": "all"}}
 		ctx.Eval(int64(len(inputs) * len(c03Entries)))
